@@ -4124,7 +4124,7 @@ def matrix_operand(r: R, chk, qual: str, helper_suffix: str = "add_spline_curve"
         chk.ob(rule, f"{qual}: `{seg(b, 50)}` pairs the matrix with the points of its own operand", ok, loc=r.loc(ctx, b),
                detail="" if ok else f"{qual}: `{seg(b, 50)}` applies the matrix that belongs to `{fi.params[owner[l.id]]}`'s knot vector to the control points of `{fi.params[dr]}`: when both curves have the same number of control points the shapes fit and A + B / A - B are silently wrong for different interior knots (otherwise a shape error)",
                func=qual, construct="transformation matrix applied to the other operand's points")
-    chk.floor(rule, f"matrix-times-points products next to {helper_suffix} in {qual}", n, 2)
+    chk.floor(rule, f"matrix-times-points products next to {helper_suffix} in {qual}", n, 1)
     return n
 
 
